@@ -26,6 +26,10 @@ LEVEL_TEXT = (
     "invariants the statement lists; the three documented no-op calls must return the identical object (also on the "
     "result of every optioned request); cross-engine join / chain requests between the relations of a program and joins to "
     "the join identity of another engine (every route, incl. the low-level partial join) must raise or return a well-formed tree."
+    "  The documented no-ops are also issued on trees returned by Processor.process and - in a third of the cases, "
+    "where the engines are handle classes with value equality - as a transfer to an equal but not identical engine "
+    "object; join operands may share columns beyond the join keys (generated and an exhaustive family); trees may be "
+    "rooted in the SQL engine over an iteration-engine source."
 )
 LEVEL_NOTE = "trusts: the walker vf/core/wellformed.py reads public dataclass fields; engine restrictions are read from the decoded AST, not from is_supported_by alone"
 RULE = (
